@@ -14,6 +14,10 @@ CONFIGS = {
     "P": (["-p", "ipa-core", "--lib", "--no-default-features", "--features",
            "cli web-app real-world-infra compact-gate test-fixture stall-detection"], 5500),
     "M": (["-p", "ipa-core", "--lib", "--features", "cli test-fixture multi-threading"], 6000),
+    # the feature set CI tests and the helper image ships (docker/helper.Dockerfile): no stall-detection, so the
+    # `#[cfg(not(feature = "stall-detection"))]` siblings in helpers/buffers and helpers/gateway are compiled
+    "N": (["-p", "ipa-core", "--lib", "--no-default-features", "--features",
+           "cli web-app real-world-infra compact-gate test-fixture"], 5500),
 }
 
 SRC_DIRS = ["ipa-core", "ipa-step", "ipa-step-derive", "ipa-step-test", "ipa-metrics",
